@@ -1,12 +1,12 @@
 #!/bin/bash
 # tools/mutant_check.sh <patch.diff> <prop> [<prop>...]
 # Runs the quick checks of the given properties against a candidate change WITHOUT touching /repo:
-# a scratch worktree of /repo's main (/tmp/mutcheck/repo) gets the patch, and copies of the harness crates
+# a scratch worktree of /repo's main ($M/repo) gets the patch, and copies of the harness crates
 # (/tmp/mutcheck/rtcsim, /tmp/mutcheck/c20) are built against it with their own target directory.
 # Prints one line per property: CAUGHT / MISSED / ERROR. Use for development; the registered checks always use /repo.
 set -u
 patch="$(readlink -f "$1")"; shift
-M=/tmp/mutcheck
+M=${MUTCHECK_DIR:-/tmp/mutcheck}
 mkdir -p $M
 if [ ! -d $M/repo ]; then git -C /repo worktree add -q --detach $M/repo main || exit 2; fi
 git -C $M/repo checkout -q -- . ; git -C $M/repo clean -qfd src tests >/dev/null 2>&1
@@ -21,7 +21,7 @@ sed -i "s#/verif/target#$M/target#" $M/rtcsim/.cargo/config.toml
 sed -i "s#p.starts_with(\"/repo/\")#(p.starts_with(\"/repo/\") || p.starts_with(\"$M/repo/\"))#" $M/rtcsim/src/sim.rs
 if ! git -C $M/repo apply --check "$patch" 2>/dev/null; then echo "PATCH-DOES-NOT-APPLY $patch"; exit 2; fi
 git -C $M/repo apply "$patch"
-trap 'git -C /tmp/mutcheck/repo checkout -q -- . ; git -C /tmp/mutcheck/repo clean -qfd src tests >/dev/null 2>&1' EXIT
+trap 'git -C $M/repo checkout -q -- . ; git -C $M/repo clean -qfd src tests >/dev/null 2>&1' EXIT
 mkdir -p $M/evidence $M/replays
 need_sim=0; for p in "$@"; do [ "$p" != C20 ] && need_sim=1; done
 if [ $need_sim = 1 ]; then
